@@ -496,7 +496,7 @@ fn main() {
             if o == "err" {
                 lines.push("spec skip".to_string()); // nothing was observed: driver answers bad-op
             } else {
-                lines.push(format!("spec {}", o));
+                lines.push(format!("spec {} {}", r.rsplit(' ').next().unwrap_or("_"), o));
             }
         }
         let replies = driver::par_batch(&exe, &lines, 12);
@@ -537,7 +537,11 @@ fn main() {
                 continue;
             }
             if s != "ok" {
-                let sig = match s.strip_prefix("viol ").and_then(|x| x.parse::<usize>().ok()) {
+                let mut f = s.split_whitespace().skip(1);
+                let at = f.next().and_then(|x| x.parse::<usize>().ok());
+                let clause = f.next().unwrap_or("");
+                let sig = match at {
+                    Some(_) if clause == "membership" => "membership-op-not-applied",
                     Some(i) => classify(real[k].split(';').nth(i).unwrap_or("")),
                     None => "driver-rejected",
                 };
@@ -545,7 +549,16 @@ fn main() {
                 rep.spec_violation(
                     &known,
                     sig,
-                    &format!("health_status claims healthy without a strict majority of distinct voters ({}) on `{}`", s, rendered[k]),
+                    &format!(
+                        "{} ({}) on `{}`",
+                        if sig == "membership-op-not-applied" {
+                            "an acknowledged membership operation is not reflected in the configuration that health is computed over"
+                        } else {
+                            "health_status claims healthy without a strict majority of distinct voters"
+                        },
+                        s,
+                        rendered[k]
+                    ),
                     &body,
                 );
             } else if *m != format!("ok {}", real[k]) {
